@@ -8,7 +8,10 @@ FUNCTIONS = ['uxarray.core.dataarray.UxDataArray._copy',
     'uxarray.core.dataarray.UxDataArray._slice_from_grid@dims=n_node',
     'uxarray.core.dataarray.UxDataArray._slice_from_grid@dims=lev,n_edge',
     'uxarray.core.dataarray.UxDataArray._slice_from_grid@dims=time',
-    'uxarray.grid.grid.Grid.copy']
+    'uxarray.grid.grid.Grid.copy',
+    'uxarray.core.dataarray.UxDataArray.isel@dims=time,n_face',
+    'uxarray.core.dataarray.UxDataArray.isel@dims=n_node',
+    'uxarray.core.dataarray.UxDataArray.isel@dims=lev,n_edge']
 STANDINS = ["xarray_ops"]
 ASSUMPTIONS = []
 EXPLANATION = ""
